@@ -34,7 +34,7 @@ COMPONENTS = {
 }
 BUDGET = {"quick": {"off_runs": 500, "on_runs": 80, "timeout": 400, "hashseed_runs": 60}, "thorough": {"budget_s": 900, "hashseed_runs": 1}}
 
-QUICK_SOURCES = ["qh", "mpas", "band", "band2", "mix", "cube", "mixe"]
+QUICK_SOURCES = ["qh", "mpas", "band", "band2", "mix", "cube", "mixe", "icox"]
 THOROUGH_SOURCES = QUICK_SOURCES + ["ico", "cap", "mpasd", "exo"]
 
 CATALOGUE = {
@@ -48,6 +48,7 @@ CATALOGUE = {
     "mixe": {"kind": "mesh", "mesh": "mix", "params": {"lon_c": -120.0, "lat_c": -30.0}, "variant": 2, "prov": "topology", "dialect": {"fill": -1, "extra": ["edge_nodes", "edge_lonlat", "face_xyz"], "xyz_scale": 2.0}},
     "cube": {"kind": "mesh", "mesh": "cube", "params": {"n": 2}, "variant": 5, "prov": "ugrid_file", "dialect": {"lon360": True, "dtype": "int32", "start": 1}},
     "ico": {"kind": "mesh", "mesh": "ico", "params": {}, "prov": "vertices_xyz"},
+    "icox": {"kind": "mesh", "mesh": "ico", "params": {}, "variant": 1, "prov": "vertices_xyz", "dialect": {"xyz_scale": 6371.0}},
     "cap": {"kind": "mesh", "mesh": "cap", "params": {}, "prov": "topology", "dialect": {"extra": ["node_xyz"], "xyz_scale": 2.0}},
 }
 GEO = {  # per-source geographic menus
@@ -274,7 +275,17 @@ class History(Profile):
                 entries.append((a, {"op": "eq"}, b))
         import hashlib
 
-        mh = hashlib.sha1(json.dumps([(s, key_of(o), b) for s, o, b in entries], sort_keys=True).encode()).hexdigest()[:12]
+        hh = hashlib.sha1()
+        hh.update(json.dumps([(s, key_of(o), b) for s, o, b in entries], sort_keys=True).encode())
+        hh.update(json.dumps(CATALOGUE, sort_keys=True).encode())
+        # the table also depends on the harness code that opens sources and canonicalises values
+        here = os.path.dirname(os.path.abspath(__file__))
+        for fn in sorted(os.listdir(os.path.join(here, "..", "sim"))) + ["../profiles/history.py"]:
+            fp = os.path.join(here, "..", "sim", fn)
+            if fn.endswith(".py") and os.path.isfile(fp):
+                with open(fp, "rb") as fh:
+                    hh.update(fh.read())
+        mh = hh.hexdigest()[:12]
         from sim.engine import scratch_base
 
         memo = os.path.join(scratch_base(), f"ref-C08-{zy.env['tree_hash']}-{'on' if zy.jit else 'off'}-{mh}.pkl")
